@@ -1521,3 +1521,318 @@ Proof.
     rewrite E. tauto. }
   split; intros [H1 H2]; (split; [now apply M|]); intros y Hy; apply H2; now apply M.
 Qed.
+
+(** * heads_from_range_and_filter with a restricted parent range (e.g. first parents only) *)
+Section HeadsRangeGen.
+  Variable g : graph.
+  Hypothesis W : wf g.
+  Variables rs hs : list nat.
+  Variable flt : nat -> bool.
+  Variables lo hi : nat.
+
+  Definition rpar (y : nat) : list nat := slice_range lo hi (parents g y).
+
+  Lemma in_firstn {A} (n : nat) : forall (l : list A) x, In x (firstn n l) -> In x l.
+  Proof.
+    induction n as [|n IH]; intros l x H; [contradiction|]. destruct l as [|a l]; [contradiction|].
+    destruct H as [<-|H]; [now left|right; now apply IH].
+  Qed.
+  Lemma in_skipn {A} (n : nat) : forall (l : list A) x, In x (skipn n l) -> In x l.
+  Proof.
+    induction n as [|n IH]; intros l x H; [assumption|]. destruct l as [|a l]; [contradiction|].
+    right. now apply IH.
+  Qed.
+  Lemma rpar_parent y x : In x (rpar y) -> In x (parents g y).
+  Proof. unfold rpar, slice_range. intros H. apply in_firstn in H. now apply in_skipn in H. Qed.
+
+  Lemma rpar_lt y x : In x (rpar y) -> x < y.
+  Proof. intros H. apply rpar_parent in H. now apply W in H. Qed.
+
+  Notation unw := (unw g rs).
+  Notation inR := (inR g rs).
+  Notation coverU := (coverU g rs).
+
+  (** where a wanted position comes from: a head, or a followed parent of a processed
+      position that was neither unwanted nor selected *)
+  Definition src (D F : list nat) (w : nat) : Prop :=
+    In w hs \/ exists y, In y D /\ flt y = false /\ ~ unw F y /\ In w (rpar y).
+
+  Record ginv (Wd U F D : list nat) : Prop := {
+    gi_dw : desc Wd;
+    gi_du : desc U;
+    gi_su : forall u, In u U -> unw F u;
+    gi_cu : forall w, In w Wd -> coverU U F (S w);
+    gi_h : forall h, In h hs -> In h Wd \/ In h D;
+    gi_c : forall y, In y D -> flt y = false -> ~ unw F y -> forall x, In x (rpar y) -> In x Wd \/ In x D;
+    gi_d : forall d, In d D -> unw F d \/ In d F \/ flt d = false;
+    gi_sw : forall w, In w Wd -> src D F w;
+    gi_sd : forall d, In d D -> src D F d;
+    gi_od : forall d w, In d D -> In w Wd -> w < d;
+    gi_f : forall f, In f F -> In f D /\ ~ inR f /\ flt f = true /\ forall f', In f' F -> ~ sanc g f f';
+    gi_fs : sasc F;
+  }.
+
+  Lemma src_mono D F w d : src D F w -> src (d :: D) F w.
+  Proof. intros [H|(y & Hy & H)]; [now left|right; exists y; split; [now right|assumption]]. Qed.
+
+  Lemma src_found D F w f : (forall y, In y D -> f < y) -> src D F w -> src D (f :: F) w.
+  Proof.
+    intros Hf [H|(y & Hy & H1 & H2 & H3)]; [now left|]. right. exists y. split; [assumption|].
+    split; [assumption|]. split; [|assumption].
+    intros [C|(f' & [<-|Hf'] & S0)].
+    - apply H2. now left.
+    - apply (sanc_lt _ _ _ W) in S0. specialize (Hf y Hy). lia.
+    - apply H2. right. now exists f'.
+  Qed.
+
+  Definition gfinal (r D : list nat) : Prop :=
+    (forall h, In h hs -> In h D) /\
+    (forall y, In y D -> flt y = false -> ~ unw r y -> forall x, In x (rpar y) -> In x D) /\
+    (forall d, In d D -> unw r d \/ In d r \/ flt d = false) /\
+    (forall d, In d D -> src D r d) /\
+    (forall f, In f r -> In f D /\ ~ inR f /\ flt f = true /\ forall f', In f' r -> ~ sanc g f f').
+
+  Lemma unw_rev F x : unw (rev F) x <-> unw F x.
+  Proof.
+    split; intros [H|(f & Hf & S0)]; try (now left); right; exists f; (split; [|assumption]).
+    - now apply in_rev.
+    - now apply in_rev in Hf.
+  Qed.
+
+  Lemma hrf_gen_ok : forall fuel Wd U F D,
+    ginv Wd U F D -> hmeasure Wd < fuel ->
+    exists r D', hrf_loop g lo hi flt fuel Wd U F = Some r /\ sdesc r /\ gfinal r D'.
+  Proof.
+    induction fuel as [|fuel IH]; intros Wd U F D I Fu; [lia|].
+    cbn [hrf_loop]. destruct Wd as [|w t].
+    - exists (rev F), D. split; [reflexivity|]. split; [apply sasc_rev, (gi_fs _ _ _ _ I)|].
+      unfold gfinal. split; [|split; [|split; [|split]]].
+      + intros h Hh. destruct (gi_h _ _ _ _ I h Hh) as [[]|H]. exact H.
+      + intros y Hy Fy Uy x Hx. rewrite unw_rev in Uy.
+        destruct (gi_c _ _ _ _ I y Hy Fy Uy x Hx) as [[]|H]. exact H.
+      + intros d Hd. destruct (gi_d _ _ _ _ I d Hd) as [H|[H|H]].
+        * left. now apply unw_rev.
+        * right. left. now apply in_rev in H.
+        * right. now right.
+      + intros d Hd. destruct (gi_sd _ _ _ _ I d Hd) as [H|(y & Hy & H1 & H2 & H3)]; [now left|].
+        right. exists y. repeat split; try assumption. now rewrite unw_rev.
+      + intros f Hf. apply in_rev in Hf. destruct (gi_f _ _ _ _ I f Hf) as (A & B & C & E0).
+        repeat split; try assumption. intros f' Hf'. apply E0. now apply in_rev.
+    - pose proof (gi_dw _ _ _ _ I) as Dw. pose proof (gi_du _ _ _ _ I) as Du.
+      assert (Fu' : hd 0 U < top_fuel U) by (unfold top_fuel; lia).
+      destruct (shift_until_ok g W rs F w _ U Du Fu' (gi_su _ _ _ _ I) (gi_cu _ _ _ _ I w (or_introl eq_refl)))
+        as (U' & b & E & Du' & Su' & Rb).
+      rewrite E.
+      assert (Hpop : forall y, In y (dedup_pop (w :: t)) <-> In y t /\ y < w).
+      { intros y. now apply dedup_pop_in. }
+      assert (Mpop : hmeasure (dedup_pop (w :: t)) <= w).
+      { apply hmeasure_lt. intros y Hy. now apply Hpop in Hy. }
+      assert (Qw : forall y, In y (w :: t) -> y = w \/ (In y t /\ y < w)).
+      { intros y [<-|Hy]; [now left|]. destruct Dw as [B _]. specialize (B _ Hy).
+        destruct (Nat.eq_dec y w); [now left|right; split; [assumption|lia]]. }
+      assert (Od : forall d, In d D -> w < d).
+      { intros d Hd. apply (gi_od _ _ _ _ I d w Hd). now left. }
+      destruct b.
+      + (* unwanted: dropped *)
+        destruct Rb as [Uw Cv'].
+        apply (IH _ _ _ (w :: D)); [|simpl in Fu; lia]. constructor; try assumption.
+        * now apply dedup_pop_desc.
+        * intros y Hy. apply Hpop in Hy. eapply coverU_mono; [|exact Cv']. lia.
+        * intros h Hh. destruct (gi_h _ _ _ _ I h Hh) as [H|H]; [|right; now right].
+          destruct (Qw h H) as [->|Q]; [right; now left|left; now apply Hpop].
+        * intros y [<-|Hy] Fy Uy x Hx; [contradiction|].
+          destruct (gi_c _ _ _ _ I y Hy Fy Uy x Hx) as [H|H]; [|right; now right].
+          destruct (Qw x H) as [->|Q]; [right; now left|left; now apply Hpop].
+        * intros d [<-|Hd]; [now left|now apply (gi_d _ _ _ _ I)].
+        * intros y Hy. apply Hpop in Hy. apply src_mono, (gi_sw _ _ _ _ I). now right.
+        * intros d [<-|Hd]; apply src_mono; [apply (gi_sw _ _ _ _ I); now left|now apply (gi_sd _ _ _ _ I)].
+        * intros d y [<-|Hd] Hy; apply Hpop in Hy; [apply Hy|]. apply (gi_od _ _ _ _ I d y Hd). now right.
+        * intros f Hf. destruct (gi_f _ _ _ _ I f Hf) as (A & B). split; [now right|exact B].
+        * apply (gi_fs _ _ _ _ I).
+      + destruct Rb as [Lt Cv'].
+        assert (Nw : ~ unw F w).
+        { intros C. destruct (Cv' w (Nat.lt_succ_diag_r w) C) as (u & Hu & Ha).
+          apply Lt in Hu. apply (anc_le _ _ _ W) in Ha. lia. }
+        destruct (flt w) eqn:Ew.
+        * (* selected *)
+          apply (IH _ _ _ (w :: D)); [|simpl in Fu; lia]. constructor.
+          -- now apply dedup_pop_desc.
+          -- now apply hextend_desc.
+          -- intros u Hu. apply hextend_in in Hu. destruct Hu as [Hu|Hu].
+             ++ right. exists w. split; [now left|]. split; [now apply anc_parent|]. apply W in Hu. lia.
+             ++ apply unw_mono. now apply Su'.
+          -- intros y Hy x Hx Ux. apply Hpop in Hy.
+             destruct Ux as [Ux|(f & [<-|Hf] & Hs)].
+             ++ destruct (Cv' x) as (u & Hu & Ha); [lia|now left|]. exists u. split; [|assumption].
+                apply hextend_in. now right.
+             ++ destruct (sanc_inv _ _ _ Hs) as (p & Hp & Hxp). exists p. split; [|assumption].
+                apply hextend_in. now left.
+             ++ destruct (Cv' x) as (u & Hu & Ha); [lia|right; now exists f|]. exists u. split; [|assumption].
+                apply hextend_in. now right.
+          -- intros h Hh. destruct (gi_h _ _ _ _ I h Hh) as [H|H]; [|right; now right].
+             destruct (Qw h H) as [->|Q]; [right; now left|left; now apply Hpop].
+          -- intros y [<-|Hy] Fy Uy x Hx; [congruence|].
+             assert (Uy' : ~ unw F y) by (intros C; apply Uy; now apply unw_mono).
+             destruct (gi_c _ _ _ _ I y Hy Fy Uy' x Hx) as [H|H]; [|right; now right].
+             destruct (Qw x H) as [->|Q]; [right; now left|left; now apply Hpop].
+          -- intros d [<-|Hd]; [right; left; now left|].
+             destruct (gi_d _ _ _ _ I d Hd) as [H|[H|H]];
+               [left; now apply unw_mono|right; left; now right|right; now right].
+          -- intros y Hy. apply Hpop in Hy. apply src_mono, src_found; [assumption|].
+             apply (gi_sw _ _ _ _ I). now right.
+          -- intros d [<-|Hd]; apply src_mono, src_found; try assumption;
+               [apply (gi_sw _ _ _ _ I); now left|now apply (gi_sd _ _ _ _ I)].
+          -- intros d y [<-|Hd] Hy; apply Hpop in Hy; [apply Hy|]. apply (gi_od _ _ _ _ I d y Hd). now right.
+          -- intros f [<-|Hf].
+             ++ split; [now left|]. split; [intros C; apply Nw; now left|]. split; [assumption|].
+                intros f' [<-|Hf'] S0; [destruct S0; congruence|].
+                apply Nw. right. exists f'. split; [assumption|exact S0].
+             ++ destruct (gi_f _ _ _ _ I f Hf) as (A & B & C & E0). split; [now right|].
+                split; [assumption|]. split; [assumption|].
+                intros f' [<-|Hf'] S0; [|now apply (E0 f')].
+                apply (sanc_lt _ _ _ W) in S0. specialize (Od f A). lia.
+          -- split; [|apply (gi_fs _ _ _ _ I)]. intros y Hy.
+             destruct (gi_f _ _ _ _ I y Hy) as (A & _). now apply Od.
+        * (* not selected: the followed parents become wanted *)
+          fold (rpar w).
+          assert (Hsh : forall y, In y (shift_to_parents (w :: t) (rpar w)) <->
+                                  In y (rpar w) \/ (In y t /\ y < w)).
+          { intros y. now apply shift_in. }
+          assert (Lsh : forall y, In y (shift_to_parents (w :: t) (rpar w)) -> y < w).
+          { intros y Hy. apply Hsh in Hy. destruct Hy as [Hy|[_ Hy]]; [now apply rpar_lt in Hy|assumption]. }
+          apply (IH _ _ _ (w :: D)).
+          -- constructor; try assumption.
+             ++ now apply shift_desc.
+             ++ intros y Hy. apply Lsh in Hy. eapply coverU_mono; [|exact Cv']. lia.
+             ++ intros h Hh. destruct (gi_h _ _ _ _ I h Hh) as [H|H]; [|right; now right].
+                destruct (Qw h H) as [->|Q]; [right; now left|left; apply Hsh; now right].
+             ++ intros y [<-|Hy] Fy Uy x Hx; [left; apply Hsh; now left|].
+                destruct (gi_c _ _ _ _ I y Hy Fy Uy x Hx) as [H|H]; [|right; now right].
+                destruct (Qw x H) as [->|Q]; [right; now left|left; apply Hsh; now right].
+             ++ intros d [<-|Hd]; [right; now right|now apply (gi_d _ _ _ _ I)].
+             ++ intros y Hy. apply Hsh in Hy. destruct Hy as [Hy|[Hy _]].
+                ** right. exists w. split; [now left|]. repeat split; assumption.
+                ** apply src_mono, (gi_sw _ _ _ _ I). now right.
+             ++ intros d [<-|Hd]; apply src_mono; [apply (gi_sw _ _ _ _ I); now left|now apply (gi_sd _ _ _ _ I)].
+             ++ intros d y [<-|Hd] Hy; [now apply Lsh|]. apply Lsh in Hy. specialize (Od d Hd). lia.
+             ++ intros f Hf. destruct (gi_f _ _ _ _ I f Hf) as (A & B). split; [now right|exact B].
+             ++ apply (gi_fs _ _ _ _ I).
+          -- assert (hmeasure (shift_to_parents (w :: t) (rpar w)) <= w) by (now apply hmeasure_lt).
+             simpl in Fu. lia.
+  Qed.
+End HeadsRangeGen.
+
+Section RestrictedSpec.
+  Variable g : graph.
+  Hypothesis W : wf g.
+  Variables rs hs : list nat.
+  Variable flt : nat -> bool.
+  Variables lo hi : nat.
+
+  (** reachable from a head along followed parents, passing only through positions that are
+      neither unwanted (ancestor of a root or strict ancestor of a result) nor selected *)
+  Inductive rreach (r : list nat) : nat -> Prop :=
+  | rr_head h : In h hs -> rreach r h
+  | rr_step y x : rreach r y -> ~ unw g rs r y -> flt y = false -> In x (rpar g lo hi y) -> rreach r x.
+
+  Definition rsel (r : list nat) (x : nat) : Prop :=
+    rreach r x /\ ~ unw g rs r x /\ flt x = true.
+
+  Lemma gfinal_rreach r D : gfinal g rs hs flt lo hi r D -> forall x, rreach r x <-> In x D.
+  Proof.
+    intros (G1 & G2 & G3 & G4 & G5) x. split.
+    - induction 1 as [h Hh|y x _ IH Uy Fy Hx]; [now apply G1|]. now apply (G2 y IH Fy Uy).
+    - remember (list_max D - x) as k eqn:Ek. revert x Ek.
+      induction k as [k IH] using lt_wf_ind. intros x Ek Hx.
+      destruct (G4 x Hx) as [H|(y & Hy & Fy & Uy & Hxy)]; [now apply rr_head|].
+      eapply rr_step; [|eassumption|assumption|eassumption].
+      pose proof (rpar_lt g W lo hi y x Hxy). pose proof (list_max_in D y Hy).
+      apply (IH (list_max D - y)); [lia|reflexivity|assumption].
+  Qed.
+
+  Theorem hrf_restricted_ok :
+    exists r, heads_from_range_and_filter g rs hs lo hi flt = Some r /\ sdesc r /\
+              forall x, In x r <-> rsel r x.
+  Proof.
+    unfold heads_from_range_and_filter. destruct hs as [|h0 hs'] eqn:Eh.
+    - exists []. split; [reflexivity|]. split; [exact I|]. intros x. split; [intros []|].
+      intros [R _]. exfalso. clear - R Eh. induction R as [h Hh|]; [rewrite Eh in Hh; contradiction|assumption].
+    - rewrite <- Eh.
+      destruct (hrf_gen_ok g W rs hs flt lo hi (S (hmeasure (heap_from hs))) (heap_from hs) (heap_from rs) [] [])
+        as (r & D & E & SD & G); [|lia|].
+      { constructor; try apply heap_from_desc.
+        - intros u Hu. apply (proj1 (heap_from_in _ _)) in Hu. left. exists u. split; [assumption|constructor].
+        - intros w _ x _ [(r & Hr & Ha)|(f & [] & _)]. exists r. split; [now apply heap_from_in|assumption].
+        - intros h Hh. left. now apply heap_from_in.
+        - intros y [].
+        - intros d [].
+        - intros w Hw. left. now apply (proj1 (heap_from_in _ _)) in Hw.
+        - intros d [].
+        - intros d w [].
+        - intros f [].
+        - exact I. }
+      exists r. split; [exact E|]. split; [assumption|].
+      intros x. pose proof (gfinal_rreach r D G) as RD. destruct G as (G1 & G2 & G3 & G4 & G5).
+      unfold rsel. split.
+      + intros Hx. destruct (G5 x Hx) as (A & B & C & E0). split; [now apply RD|]. split; [|assumption].
+        intros [U0|(f & Hf & S0)]; [contradiction|]. exact (E0 f Hf S0).
+      + intros (R & U0 & F0). apply RD in R. destruct (G3 x R) as [H|[H|H]]; [contradiction|assumption|congruence].
+  Qed.
+
+  (** the characterisation has exactly one solution *)
+  Lemma unw_agree r1 r2 x : (forall z, x < z -> (In z r1 <-> In z r2)) ->
+    (unw g rs r1 x <-> unw g rs r2 x).
+  Proof.
+    intros A. split; intros [H|(f & Hf & S0)]; try (now left); right; exists f; (split; [|assumption]);
+      apply A; try assumption; now apply (sanc_lt _ _ _ W).
+  Qed.
+
+  Lemma rreach_agree r1 r2 x : rreach r1 x -> (forall z, x < z -> (In z r1 <-> In z r2)) -> rreach r2 x.
+  Proof.
+    induction 1 as [h Hh|y x Ry IH Uy Fy Hx]; intros A; [now apply rr_head|].
+    pose proof (rpar_lt g W lo hi y x Hx) as L.
+    assert (Ay : forall z, y < z -> (In z r1 <-> In z r2)) by (intros z Hz; apply A; lia).
+    eapply rr_step; [now apply IH| |assumption|eassumption].
+    intros C. apply Uy. now apply (unw_agree r1 r2 y Ay).
+  Qed.
+
+  Lemma rreach_bound r x : rreach r x -> x <= list_max hs.
+  Proof.
+    induction 1 as [h Hh|y x _ IH _ _ Hx]; [now apply list_max_in|].
+    pose proof (rpar_lt g W lo hi y x Hx). lia.
+  Qed.
+
+  Theorem rsel_unique r1 r2 :
+    (forall x, In x r1 <-> rsel r1 x) -> (forall x, In x r2 <-> rsel r2 x) ->
+    forall x, In x r1 <-> In x r2.
+  Proof.
+    intros H1 H2 x. remember (S (list_max hs) - x) as k eqn:Ek. revert x Ek.
+    induction k as [k IH] using lt_wf_ind. intros x Ek.
+    destruct (Nat.lt_ge_cases (list_max hs) x) as [L|L].
+    - split; intros Hx; exfalso.
+      + apply H1 in Hx. destruct Hx as [R _]. apply rreach_bound in R. lia.
+      + apply H2 in Hx. destruct Hx as [R _]. apply rreach_bound in R. lia.
+    - assert (A : forall z, x < z -> (In z r1 <-> In z r2)).
+      { intros z Hz. destruct (Nat.lt_ge_cases (list_max hs) z) as [Lz|Lz].
+        - split; intros Hx; exfalso.
+          + apply H1 in Hx. destruct Hx as [R _]. apply rreach_bound in R. lia.
+          + apply H2 in Hx. destruct Hx as [R _]. apply rreach_bound in R. lia.
+        - apply (IH (S (list_max hs) - z)); [lia|reflexivity]. }
+      assert (A' : forall z, x < z -> (In z r2 <-> In z r1)) by (intros z Hz; symmetry; now apply A).
+      rewrite H1, H2. unfold rsel. split; intros (R & U0 & F0); (split; [|split; [|assumption]]).
+      + now apply (rreach_agree r1 r2).
+      + intros C. apply U0. now apply (unw_agree r1 r2 x A).
+      + now apply (rreach_agree r2 r1).
+      + intros C. apply U0. now apply (unw_agree r2 r1 x A').
+  Qed.
+End RestrictedSpec.
+
+Lemma heads_range_restricted_thm : forall (g : graph) rs hs flt lo hi, wf g ->
+  (exists r, heads_from_range_and_filter g rs hs lo hi flt = Some r /\ sdesc r /\
+             forall x, In x r <-> rsel g rs hs flt lo hi r x) /\
+  (forall r1 r2, (forall x, In x r1 <-> rsel g rs hs flt lo hi r1 x) ->
+                 (forall x, In x r2 <-> rsel g rs hs flt lo hi r2 x) ->
+                 forall x, In x r1 <-> In x r2).
+Proof.
+  intros g rs hs flt lo hi W. split; [now apply hrf_restricted_ok|now apply rsel_unique].
+Qed.
